@@ -17,7 +17,7 @@ import (
 // ---- universe -------------------------------------------------------------
 
 var selKeys = []string{"a", "b", "c", "d", "e"}
-var selWeights = []uint32{1, 2, 7, 0xFFFFFFFF}
+var selWeights = []uint32{1, 2, 7, 1000, 1 << 20, 0xFFFFFFFF}
 
 type shardJ struct {
 	Key    string `json:"key"`
@@ -172,9 +172,17 @@ func findTies(limit uint64, per int) []tieInfo {
 
 // ---- shard maps -------------------------------------------------------------
 
-// A map is identified by a base-5 number: digit i is 0 if key i is absent and
+// A map is identified by a number in base len(selWeights)+1: digit i is 0 if key i is absent and
 // weightIndex+1 otherwise.
-var pow5 = []int{1, 5, 25, 125, 625, 3125}
+var mapBase = len(selWeights) + 1
+
+var pow5 = func() []int {
+	out := []int{1}
+	for i := 0; i < 5; i++ {
+		out = append(out, out[len(out)-1]*mapBase)
+	}
+	return out
+}()
 
 type permSel struct {
 	order []int // order[j] = position in canonical list of the j-th listed shard
@@ -193,8 +201,8 @@ func decodeMap(id int) *smap {
 	m := &smap{id: id}
 	x := id
 	for i := range selKeys {
-		d := x % 5
-		x /= 5
+		d := x % mapBase
+		x /= mapBase
 		if d > 0 {
 			m.list = append(m.list, shardJ{selKeys[i], selWeights[d-1]})
 			m.keyIdx = append(m.keyIdx, i)
@@ -349,7 +357,7 @@ func checkMapHash(m *smap, h uint64, lookup func(int) *smap, st *selStats, emit 
 	if k >= 2 {
 		for i := range m.list {
 			ki := m.keyIdx[i]
-			id2 := m.id - ((m.id/pow5[ki])%5)*pow5[ki]
+			id2 := m.id - ((m.id/pow5[ki])%mapBase)*pow5[ki]
 			m2 := lookup(id2)
 			if m2 == nil {
 				ev.HarnessError("map %d (removal from %d) not built", id2, m.id)
@@ -376,7 +384,7 @@ func checkMapHash(m *smap, h uint64, lookup func(int) *smap, st *selStats, emit 
 	// Additions.
 	took := 0
 	for t := range selKeys {
-		if (m.id/pow5[t])%5 != 0 {
+		if (m.id/pow5[t])%mapBase != 0 {
 			continue
 		}
 		for w := range selWeights {
@@ -405,7 +413,7 @@ func checkMapHash(m *smap, h uint64, lookup func(int) *smap, st *selStats, emit 
 		}
 	}
 	if st.outcomes != nil {
-		wIdx := (m.id / pow5[baseKey]) % 5
+		wIdx := (m.id / pow5[baseKey]) % mapBase
 		o := uint32(k) | uint32(baseKey)<<4 | uint32(wIdx)<<8 | uint32(rerouted)<<12 | uint32(took)<<16
 		st.outcomes[o] = struct{}{}
 	}
@@ -438,7 +446,7 @@ func prepareMap(m *smap, withPerms bool, emit func(selViol)) bool {
 func popcountMap(id int) int {
 	n := 0
 	for i := range selKeys {
-		if (id/pow5[i])%5 != 0 {
+		if (id/pow5[i])%mapBase != 0 {
 			n++
 		}
 	}
@@ -507,7 +515,7 @@ func runSelector(r *ev.Run) {
 	nTie := len(H) - nGeneric - nPre
 
 	sub := r.NewSub("selector-relations", "venum",
-		fmt.Sprintf("all shard maps over keys {a..e} x weights {1,2,7,2^32-1} with 1..%d shards (every weight assignment), every permutation of each, every single removal, every single addition (key x weight) x hash set H (%d generic: 0,1,2,2^k-1,2^k,2^k+1,2^64-1; %d pre-images unmix(m)^hash(key) for each key and m in {0..64, per leading-bit position in %v x 64 table rows x {first,last} interpolation position, generic set}; %d tie hashes found by scanning h<%d for equal scores of two shards)", maxK, nGeneric, nPre, positions, nTie, tieLimit))
+		fmt.Sprintf("all shard maps over keys {a..e} x weights {1,2,7,1000,2^20,2^32-1} with 1..%d shards (every weight assignment), every permutation of each, every single removal, every single addition (key x weight) x hash set H (%d generic: 0,1,2,2^k-1,2^k,2^k+1,2^64-1; %d pre-images unmix(m)^hash(key) for each key and m in {0..64, per leading-bit position in %v x 64 table rows x {first,last} interpolation position, generic set}; %d tie hashes found by scanning h<%d for equal scores of two shards)", maxK, nGeneric, nPre, positions, nTie, tieLimit))
 	done := sub.Timer()
 
 	// Build maps.
